@@ -3,7 +3,7 @@
 # (n = harmless refactoring: tests pass and every demo of that property still passes)
 set -u
 P=$1; V=$2
-WT=/tmp/seed2/wt-$P; OUT=/tmp/seed2/out/$P; DST=/verif/seeded/$P$V
+R=${SEEDROOT:-/tmp/seed2}; WT=$R/wt-$P; OUT=$R/out/$P; DST=/verif/seeded/$P$V
 cd $WT || exit 2
 git checkout -q -- . ; git clean -qfd
 [ -f $OUT/patch_$V.diff ] || { echo "$P$V: no patch"; exit 1; }
@@ -22,10 +22,10 @@ if [ $V = n ]; then
   mkdir -p $DST && cp $OUT/patch_$V.diff $DST/patch.diff
   kind=neutral
 else
-  timeout 300 /venv/bin/python $OUT/demo_$V.py >/tmp/seed2/clean_$P$V.log 2>&1; c=$?
+  timeout 300 /venv/bin/python $OUT/demo_$V.py >$R/clean_$P$V.log 2>&1; c=$?
   git apply $OUT/patch_$V.diff || { echo "$P$V: patch does not apply"; exit 1; }
   t=$(/venv/bin/python -m pytest -q -p no:cacheprovider tests/unit 2>&1 | tail -1)
-  timeout 300 /venv/bin/python $OUT/demo_$V.py >/tmp/seed2/mut_$P$V.log 2>&1; m=$?
+  timeout 300 /venv/bin/python $OUT/demo_$V.py >$R/mut_$P$V.log 2>&1; m=$?
   git checkout -q -- . ; git clean -qfd
   echo "$P$V: clean-demo-rc=$c mutated-demo-rc=$m tests: $t"
   case "$t" in *"67 passed"*) ;; *) echo "$P$V: tests do not pass"; exit 1;; esac
@@ -34,9 +34,9 @@ else
   kind=breaking
 fi
 /venv/bin/python - "$P" "$V" "$t" "$kind" <<'PY'
-import json,sys
+import json,sys,os
 P,V,t,kind=sys.argv[1:5]
-try: m=json.load(open(f"/tmp/seed2/out/{P}/meta_{V}.json"))
+try: m=json.load(open(os.environ.get("SEEDROOT","/tmp/seed2")+f"/out/{P}/meta_{V}.json"))
 except Exception: m={}
 m["property"]=P; m["kind"]=kind
 if kind=="breaking":
